@@ -18,7 +18,7 @@ TRUSTED = ['CPython inspect / functools.wraps semantics']
 def cases(rng, tier):
     n = 1500 if tier == 'quick' else 12000
     return C.build_cases(rng, n, calls_per=3, style='kw', tag='c04a') + C.build_cases(rng, n // 4, calls_per=2, style=None, tag='c04b') \
-        + C.scenario_cases(rng, n // 8, style='kw', tag='c04sc') + R.reentrant_cases(rng, n // 6, style='kw', tag='c04re') + R.wrapsof_cases(rng, n // 12, style='kw', tag='c04wo') \
+        + C.scenario_cases(rng, n // 8, style='kw', tag='c04sc') + R.reentrant_cases(rng, n // 6, style='kw', tag='c04re') + R.wrapsof_cases(rng, n // 12, style='kw', tag='c04wo') + R.kindchange_cases(rng, n // 12, tag='c04kc') \
         + G.gen_cases(rng, tier) \
         + tv_tree_cases(rng, tier)         # TypeVars + overlapping (nested) calls: compatible values stay accepted
 
